@@ -144,7 +144,9 @@ ADVERSARIAL = ["a", "A", "a_0", "A_0", "a_1", "ab", "aB", "Ab", "AB", "x-y", "x_
                "type", "types", "assign", "increase", "decrease", "imply", "total-time", "total_time", "preference", "always", "sometime", "within",
                "f_9", "o_9", "a_9", "p_9", "x_9", "and_", "and__", "at_", "object_", "a-b", "a_b", "A-B", "t", "T", "true", "false", "in", "with", "use",
                "contains", "start_0", "end_0", "observe", "oneof", "unknown", "minimize", "maximize", "metric", "is-violated", "effect", "precondition",
-               "parameters", "condition", "durative-action", "scale-up", "undefined", "float", "integer", "boolean", "Float", "rational", "set", "string"]
+               "parameters", "condition", "durative-action", "scale-up", "undefined", "float", "integer", "boolean", "Float", "rational", "set", "string",
+               # white space inside and at either end (a name read with readline() keeps its line feed; `$` matches before a final line feed, `\Z` does not)
+               "a\n", "at\n", "l1\n", "move\n", "a\n\n", "x\ny", "x\ty", " a", "a ", "a\r", "\na"]
 
 
 def names_pool(rng, k):
